@@ -6,6 +6,9 @@ package main
 // calls through function values).
 
 import (
+	"go/token"
+	"go/types"
+	"strings"
 	"sync"
 
 	"golang.org/x/tools/go/callgraph"
@@ -14,6 +17,88 @@ import (
 	"golang.org/x/tools/go/ssa"
 	"golang.org/x/tools/go/ssa/ssautil"
 )
+
+// reachesPackage: may a call of fn (transitively) execute code of package pkgPath? Used to keep
+// unexported fields of other packages across calls: only code of the declaring package can write
+// them (reflection and unsafe are outside the model).
+var pkgReach struct {
+	mu   sync.Mutex
+	cg   *callgraph.Graph
+	sets map[string]map[*ssa.Function]bool
+}
+
+func (p *Program) mayReachPackage(fn *ssa.Function, pkgPath string) bool {
+	if fn == nil {
+		return true
+	}
+	pkgReach.mu.Lock()
+	defer pkgReach.mu.Unlock()
+	if pkgReach.cg == nil {
+		pkgReach.cg = vta.CallGraph(ssautil.AllFunctions(p.Prog), cha.CallGraph(p.Prog))
+		pkgReach.sets = map[string]map[*ssa.Function]bool{}
+	}
+	set, ok := pkgReach.sets[pkgPath]
+	if !ok {
+		// packages whose code can write the field: the owner, and for "+owner" every package that
+		// transitively imports it (promoted fields of embedded structs need no direct import)
+		writers := map[string]bool{}
+		base := strings.TrimPrefix(pkgPath, "+")
+		writers[base] = true
+		if strings.HasPrefix(pkgPath, "+") {
+			memo := map[*types.Package]bool{}
+			var imports func(pk *types.Package) bool
+			imports = func(pk *types.Package) bool {
+				if pk.Path() == base {
+					return true
+				}
+				if v, ok := memo[pk]; ok {
+					return v
+				}
+				memo[pk] = false
+				for _, im := range pk.Imports() {
+					if imports(im) {
+						memo[pk] = true
+						return true
+					}
+				}
+				return false
+			}
+			for _, sp := range p.Prog.AllPackages() {
+				if imports(sp.Pkg) {
+					writers[sp.Pkg.Path()] = true
+				}
+			}
+		}
+		set = map[*ssa.Function]bool{}
+		var work []*callgraph.Node
+		for f, n := range pkgReach.cg.Nodes {
+			if f == nil {
+				continue
+			}
+			owner := f
+			for owner.Parent() != nil {
+				owner = owner.Parent()
+			}
+			if owner.Pkg != nil && writers[owner.Pkg.Pkg.Path()] {
+				set[f] = true
+				work = append(work, n)
+			}
+		}
+		for len(work) > 0 {
+			n := work[len(work)-1]
+			work = work[:len(work)-1]
+			for _, e := range n.In {
+				c := e.Caller
+				if c.Func != nil && !set[c.Func] {
+					set[c.Func] = true
+					work = append(work, c)
+				}
+			}
+		}
+		pkgReach.sets[pkgPath] = set
+	}
+	return set[fn]
+}
 
 type ghostFrames struct {
 	once     sync.Once
@@ -58,4 +143,195 @@ func (p *Program) ghostMayModify(cs *ContractSet, ghost string, fn *ssa.Function
 		return true
 	}
 	return gframes.mayReach[ghost][fn]
+}
+
+// ---------------------------------------------------------------------------
+// Field writers: which functions contain a store into a given struct field (Burstall heap key
+// S.<pkg>.<T>.<f>), directly, through a derived address, or by overwriting the whole struct. A call
+// keeps a field heap if the callee cannot reach any writer of the field in the call graph, the
+// field's address is never taken for other purposes, and the callee cannot reach reflect.Value.Set*.
+
+var fieldWr struct {
+	mu        sync.Mutex
+	built     bool
+	writers   map[string]map[*ssa.Function]bool
+	addrTaken map[string]bool
+	reach     map[string]map[*ssa.Function]bool
+	reflectW  map[*ssa.Function]bool
+}
+
+func structKeyOf(t types.Type) (string, *types.Struct) {
+	t = types.Unalias(t)
+	u, ok := t.Underlying().(*types.Struct)
+	if !ok {
+		return "", nil
+	}
+	return (&Ctx{}).structName(t), u
+}
+
+func (p *Program) buildFieldWriters() {
+	fw := &fieldWr
+	fw.writers = map[string]map[*ssa.Function]bool{}
+	fw.addrTaken = map[string]bool{}
+	fw.reach = map[string]map[*ssa.Function]bool{}
+	addW := func(key string, f *ssa.Function) {
+		if fw.writers[key] == nil {
+			fw.writers[key] = map[*ssa.Function]bool{}
+		}
+		fw.writers[key][f] = true
+	}
+	var addrUses func(v ssa.Value, depth int) (written, escaped bool)
+	addrUses = func(v ssa.Value, depth int) (written, escaped bool) {
+		rs := v.Referrers()
+		if rs == nil || depth > 6 {
+			return false, true
+		}
+		for _, r := range *rs {
+			switch u := r.(type) {
+			case *ssa.Store:
+				if u.Addr == v {
+					written = true
+				} else {
+					escaped = true
+				}
+			case *ssa.UnOp:
+				if u.Op != token.MUL {
+					escaped = true
+				}
+			case *ssa.DebugRef:
+			case *ssa.FieldAddr:
+				w, e := addrUses(u, depth+1)
+				written, escaped = written || w, escaped || e
+			case *ssa.IndexAddr:
+				if u.X == v {
+					w, e := addrUses(u, depth+1)
+					written, escaped = written || w, escaped || e
+				} else {
+					escaped = true
+				}
+			default:
+				escaped = true
+			}
+		}
+		return
+	}
+	for f := range ssautil.AllFunctions(p.Prog) {
+		for _, b := range f.Blocks {
+			for _, in := range b.Instrs {
+				switch x := in.(type) {
+				case *ssa.FieldAddr:
+					pt, ok := x.X.Type().Underlying().(*types.Pointer)
+					if !ok {
+						continue
+					}
+					name, u := structKeyOf(pt.Elem())
+					if u == nil || x.Field >= u.NumFields() {
+						continue
+					}
+					key := name + "." + u.Field(x.Field).Name()
+					w, e := addrUses(x, 0)
+					if w {
+						addW(key, f)
+					}
+					if e {
+						fw.addrTaken[key] = true
+					}
+				case *ssa.Store:
+					if name, u := structKeyOf(x.Val.Type()); u != nil {
+						for i := 0; i < u.NumFields(); i++ {
+							addW(name+"."+u.Field(i).Name(), f)
+						}
+					}
+				}
+			}
+		}
+	}
+	if pkgReach.cg == nil {
+		pkgReach.cg = vta.CallGraph(ssautil.AllFunctions(p.Prog), cha.CallGraph(p.Prog))
+		pkgReach.sets = map[string]map[*ssa.Function]bool{}
+	}
+	// reflection-based writers
+	seed := map[*ssa.Function]bool{}
+	for f := range pkgReach.cg.Nodes {
+		if f == nil || f.Pkg == nil {
+			continue
+		}
+		// decoders are the code that writes struct fields through reflection given a pointer
+		switch pp := f.Pkg.Pkg.Path(); {
+		case pp == "encoding/json" || pp == "encoding/gob" || pp == "encoding/xml" || strings.Contains(pp, "yaml") || strings.Contains(pp, "toml"):
+			if strings.HasPrefix(f.Name(), "Unmarshal") || strings.HasPrefix(f.Name(), "Decode") {
+				seed[f] = true
+			}
+		}
+	}
+	fw.reflectW = backwardClosure(pkgReach.cg, seed)
+	fw.built = true
+}
+
+func backwardClosure(cg *callgraph.Graph, seed map[*ssa.Function]bool) map[*ssa.Function]bool {
+	set := map[*ssa.Function]bool{}
+	var work []*callgraph.Node
+	for f := range seed {
+		if n := cg.Nodes[f]; n != nil {
+			set[f] = true
+			work = append(work, n)
+		}
+	}
+	for len(work) > 0 {
+		n := work[len(work)-1]
+		work = work[:len(work)-1]
+		for _, e := range n.In {
+			c := e.Caller
+			if c.Func != nil && !set[c.Func] {
+				set[c.Func] = true
+				work = append(work, c)
+			}
+		}
+	}
+	return set
+}
+
+// mayWriteField: may a call of fn change the field heap `key`?
+func (p *Program) mayWriteField(fn *ssa.Function, key string) bool {
+	if fn == nil {
+		return true
+	}
+	pkgReach.mu.Lock()
+	defer pkgReach.mu.Unlock()
+	fw := &fieldWr
+	if !fw.built {
+		p.buildFieldWriters()
+	}
+	if fw.addrTaken[key] || fw.reflectW[fn] {
+		return true
+	}
+	r, ok := fw.reach[key]
+	if !ok {
+		r = backwardClosure(pkgReach.cg, fw.writers[key])
+		fw.reach[key] = r
+	}
+	return r[fn]
+}
+
+func (p *Program) whyMayWrite(fn *ssa.Function, key string) string {
+	pkgReach.mu.Lock()
+	defer pkgReach.mu.Unlock()
+	fw := &fieldWr
+	if !fw.built {
+		return "not built"
+	}
+	out := ""
+	if fw.addrTaken[key] {
+		out += "addr-taken "
+	}
+	if fw.reflectW[fn] {
+		out += "reaches-decoder "
+	}
+	if fw.reach[key][fn] {
+		out += "reaches-writer:"
+		for w := range fw.writers[key] {
+			out += " " + w.String()
+		}
+	}
+	return out
 }
